@@ -2106,3 +2106,51 @@ fn k_choose_shader_image() {
     assert!(image_case(false, false, false, false) == 5, "Repeat Nearest alpha -> TransformedNearestRepeatImageAlpha");
     kani::cover!(true);
 }
+
+// ---------------------------------------------------------------- recorders for the mask blitter constructors (used by K.fill_driver)
+pub static mut MASK_NEW_LOG: (u8, i32, i32, i32, i32) = (0, 0, 0, 0, 0);
+pub fn mask_blitter_new_rec(x: i32, y: i32, width: i32, height: i32) -> MaskBlitter {
+    unsafe { MASK_NEW_LOG = (1, x, y, width, height); }
+    MaskBlitter { x: x * SCALE, y: y * SCALE, width, buf: vec![0; (width * height) as usize + 1] }
+}
+pub fn super_blitter_new_rec(x: i32, y: i32, width: i32, height: i32) -> MaskSuperBlitter {
+    unsafe { MASK_NEW_LOG = (2, x, y, width, height); }
+    MaskSuperBlitter { x: x * SCALE, y: y * SCALE, width, buf: vec![0; (width * height) as usize + 1] }
+}
+
+// ---------------------------------------------------------------- transformed image shaders (C13 #6)
+// @ob id=K.transformed_nearest_shader props=C13 kind=bounded:count<=3,image=2x2 tier=quick timeout=900 fns=TransformedNearestImageShader::shade_span,TransformedNearestImageAlphaShader::shade_span
+// @+ desc="TransformedNearestImageShader / ...AlphaShader::shade_span (Pad fetch, 2x2 image with symbolic texels, a fixed non-trivial 16.16 matrix, symbolic x,y in 0..1000, count<=3): dest[i] = fetch_nearest(_alpha)(image, xfm.transform(x+i, y)) for i<count, entries >= count untouched -- one fetch per pixel at consecutive x; fetch_* and MatrixFixedPoint::transform are sw-composite's (named, not re-specified)"
+#[kani::proof]
+#[kani::unwind(5)]
+fn k_transformed_nearest_shader() {
+    let data: [u32; 4] = kani::any();
+    let img = Image { width: 2, height: 2, data: &data };
+    let t = Transform::new(0.5, 0.25, -0.25, 0.5, 3.0, -2.0);
+    let x: i32 = kani::any();
+    let y: i32 = kani::any();
+    kani::assume(x >= 0 && x <= 1000 && y >= 0 && y <= 1000);
+    let count: usize = kani::any();
+    kani::assume(count <= 3);
+    let s1 = TransformedNearestImageShader::<PadFetch>::new(&img, &t);
+    let mut d1 = [0xdeadbeefu32; 4];
+    s1.shade_span(x, y, &mut d1[..], count);
+    let alpha: u32 = kani::any();
+    kani::assume(alpha <= 255);
+    let s2 = TransformedNearestImageAlphaShader::<PadFetch>::new(&img, &t, alpha);
+    let mut d2 = [0xdeadbeefu32; 4];
+    s2.shade_span(x, y, &mut d2[..], count);
+    let mut i = 0;
+    while i < 4 {
+        if i < count {
+            let p = s1.xfm.transform((x + i as i32) as u16, y as u16);
+            assert!(d1[i] == fetch_nearest::<PadFetch>(&img, p.x, p.y), "pixel i samples the image at xfm(x+i, y)");
+            let p2 = s2.xfm.transform((x + i as i32) as u16, y as u16);
+            assert!(d2[i] == fetch_nearest_alpha::<PadFetch>(&img, p2.x, p2.y, alpha_to_alpha256(alpha)), "alpha variant: same position, scaled by alpha256");
+        } else {
+            assert!(d1[i] == 0xdeadbeef && d2[i] == 0xdeadbeef, "entries beyond count untouched");
+        }
+        i += 1;
+    }
+    kani::cover!(count == 3);
+}
